@@ -278,7 +278,7 @@ mod imp {
         /// `fn(p) e` (expression body, no braces)
         LambdaExpr(Vec<String>, Box<E>),
         /// if-EXPRESSION: each branch is a value block `{ e }`; bool = `else` on its own line
-        IfExpr(Box<E>, Box<E>, Box<E>, bool),
+        IfExpr(Box<E>, Box<E>, Box<E>, bool, bool),   // last: value blocks written on several lines
         BitNot(Box<E>),
     }
     #[derive(Clone, Debug)]
@@ -330,7 +330,7 @@ mod imp {
             // tail values may start with any prefix operator, `~` included (KF-C15-3 was repaired)
             let a = if self.r.chance(1, 8) { E::BitNot(Box::new(self.int_expr(0))) } else { self.int_expr(d) };
             let b = self.int_expr(d);
-            E::IfExpr(Box::new(c), Box::new(a), Box::new(b), self.r.chance(1, 4))
+            E::IfExpr(Box::new(c), Box::new(a), Box::new(b), self.r.chance(1, 4), self.r.chance(1, 3))
         }
         fn lambda(&mut self, in_parens: bool) -> E {
             let p = self.name("p");
@@ -446,12 +446,14 @@ mod imp {
     }
 
     #[derive(Clone, Copy, PartialEq, Debug)]
-    pub enum Fam { Base, Semi, Blank, Indent, Comment, Parens, Literal, Breaks }
-    pub const FAMS: [Fam; 7] = [Fam::Semi, Fam::Blank, Fam::Indent, Fam::Comment, Fam::Parens, Fam::Literal, Fam::Breaks];
+    pub enum Fam { Base, Semi, Blank, Indent, Comment, Parens, Literal, Breaks, Reflow }
+    pub const FAMS: [Fam; 8] = [Fam::Semi, Fam::Blank, Fam::Indent, Fam::Comment, Fam::Parens, Fam::Literal, Fam::Breaks, Fam::Reflow];
 
     /// Every syntactic position in which a family can apply its transformation (the generator must
     /// reach each of them; the counts go into the evidence).
-    pub const POSITIONS: [&str; 52] = [
+    pub const POSITIONS: [&str; 58] = [
+        "Semi:value-block-tail", "Reflow:value-block", "Reflow:stmt-block",
+        "Comment:trailing:value-block-before-close", "Comment:own-line:value-block-before-close", "Blank:value-block-before-close",
         "Parens:let-init", "Parens:assign-rhs", "Parens:print-arg", "Parens:call-arg", "Parens:method-arg", "Parens:vec-elem",
         "Parens:operand", "Parens:if-cond", "Parens:while-cond", "Parens:return-value", "Parens:index-expr", "Parens:ifexpr-cond",
         "Parens:ifexpr-tail", "Parens:lambda-expr-body", "Parens:lambda-tail", "Parens:range-bound", "Parens:stmt-expr",
@@ -549,12 +551,16 @@ mod imp {
                       _ => self.rv(e, "operand") }
         }
         /// `{ e }` value block of an if-expression: one line, the value directly before `}`
-        fn value_block(&mut self, e: &E) {
-            self.o.push('{'); self.sp();
+        fn value_block(&mut self, e: &E, ml: bool) {
+            self.o.push('{');
+            if ml { self.ind += 1; self.nl("after-open-brace"); self.indent(); } else { self.sp(); }
             let before = self.o.len();
             self.rv(e, "ifexpr-tail");
             if self.o[before..].starts_with('~') { self.tilde_tail += 1; }
-            self.sp(); self.o.push('}');
+            // `e; }` / `e;` NEWLINE `}`: an explicit semicolon instead of nothing / the newline before `}`
+            if self.fam == Fam::Semi && self.r.chance(1, 2) { self.note("Semi:value-block-tail".into()); self.o.push(';'); }
+            if ml { self.ind -= 1; self.nl("value-block-before-close"); self.indent(); } else { self.sp(); }
+            self.o.push('}');
         }
         fn expr(&mut self, e: &E) {
             match e {
@@ -575,17 +581,28 @@ mod imp {
                     for (i, x) in args.iter().enumerate() { if i > 0 { self.comma("after-call-comma"); } self.rv(x, "method-arg"); } self.close(")"); }
                 E::Lambda(ps, body) => { self.o.push_str("fn("); self.o.push_str(&ps.join(", ")); self.o.push_str(") "); self.block(body, "lambda-body"); }
                 E::LambdaExpr(ps, body) => { self.o.push_str("fn("); self.o.push_str(&ps.join(", ")); self.o.push_str(") "); self.rv(body, "lambda-expr-body"); }
-                E::IfExpr(c, a, b, own_line) => {
-                    self.o.push_str("if"); self.sp(); self.rv(c, "ifexpr-cond"); self.sp(); self.value_block(a);
+                E::IfExpr(c, a, b, own_line, ml) => {
+                    // family Reflow: the same value block on one line or on several
+                    let ml = if self.fam == Fam::Reflow && self.r.chance(1, 2) { self.note("Reflow:value-block".into()); !*ml } else { *ml };
+                    self.o.push_str("if"); self.sp(); self.rv(c, "ifexpr-cond"); self.sp(); self.value_block(a, ml);
                     // an `else` on its own line is only written where a newline is not swallowed by ( or [
                     if *own_line && self.paren == 0 { self.nl("before-own-line-else"); self.indent(); } else { self.sp(); }
-                    self.o.push_str("else"); self.sp(); self.value_block(b);
+                    self.o.push_str("else"); self.sp(); self.value_block(b, ml);
                 }
             }
         }
         fn block(&mut self, b: &[S], kind: &'static str) {
             self.o.push('{');
             if b.is_empty() { self.o.push('}'); return; }
+            if self.fam == Fam::Reflow && b.len() == 1 && self.r.chance(1, 2)
+                && matches!(b[0], S::Let(..) | S::Assign(..) | S::Inc(..) | S::Print(..) | S::Return(..) | S::Break | S::Continue | S::Expr(..)) {
+                // `{ stmt }` on one line instead of three
+                self.note("Reflow:stmt-block".into());
+                self.kinds.push(kind); self.sp();
+                if kind == "lambda-body" { if let S::Expr(e) = &b[0] { self.rv(e, "lambda-tail"); } else { self.stmt(&b[0]); } } else { self.stmt(&b[0]); }
+                self.sp(); self.o.push('}'); self.kinds.pop();
+                return;
+            }
             self.kinds.push(kind);
             self.ind += 1; self.nl("after-open-brace"); self.indent();
             for (i, s) in b.iter().enumerate() {
@@ -626,6 +643,126 @@ mod imp {
         }
     }
 
+    /// The real parser's AST of `src`, printed with Debug, with every span erased and every
+    /// Grouping node replaced by its content ("parse result modulo spans and Grouping nodes").
+    pub fn ast_norm(src: &str) -> Option<String> {
+        let t = src.to_string();
+        let parsed = guarded(std::panic::AssertUnwindSafe(move || {
+            let source = aelys_syntax::Source::new("<verif>", &t);
+            let tokens = Lexer::with_source(source.clone()).scan().ok()?;
+            let stmts = aelys_frontend::parser::Parser::new(tokens, source).parse().ok()?;
+            Some(format!("{:?}", stmts))
+        })).ok().flatten()?;
+        // erase spans
+        let mut d = String::with_capacity(parsed.len());
+        let mut rest = parsed.as_str();
+        while let Some(i) = rest.find("Span {") {
+            d.push_str(&rest[..i]);
+            d.push('_');
+            let j = rest[i..].find('}').map(|j| i + j + 1).unwrap_or(rest.len());
+            rest = &rest[j..];
+        }
+        d.push_str(rest);
+        // unwrap Grouping nodes, innermost-last is fine: repeat until none is left
+        let pat = "Expr { kind: Grouping(";
+        while let Some(i) = d.find(pat) {
+            let inner_start = i + pat.len();
+            let bytes = d.as_bytes();
+            let (mut depth, mut k, mut in_str) = (1i32, inner_start, false);
+            while k < bytes.len() && depth > 0 {
+                let c = bytes[k];
+                if in_str { if c == b'\\' { k += 1; } else if c == b'"' { in_str = false; } }
+                else if c == b'"' { in_str = true; }
+                else if c == b'(' { depth += 1; } else if c == b')' { depth -= 1; }
+                k += 1;
+            }
+            // d[inner_start..k-1] is the grouped expression; after it comes `, span: _ }`
+            let inner = d[inner_start..k - 1].to_string();
+            let tail = ", span: _ }";
+            let end = if d[k..].starts_with(tail) { k + tail.len() } else { k };
+            d.replace_range(i..end, &inner);
+        }
+        // the parser folds `-` applied directly to an integer literal (unary.rs); with a Grouping in between it
+        // does not: fold here so that `-(5)` and `-5` compare equal
+        let pat = "Expr { kind: Unary { op: Neg, operand: Expr { kind: Int(";
+        let mut from = 0;
+        while let Some(off) = d[from..].find(pat) {
+            let i = from + off;
+            let ns = i + pat.len();
+            let ne = ns + d[ns..].find(')').unwrap_or(0);
+            let tail = "), span: _ } }, span: _ }";
+            if let (Ok(n), true) = (d[ns..ne].parse::<i64>(), d[ne..].starts_with(tail)) {
+                d.replace_range(i..ne + tail.len(), &format!("Expr {{ kind: Int({}), span: _ }}", n.wrapping_neg()));
+                from = 0;        // an enclosing negation may now be foldable too
+            } else { from = i + 1; }
+        }
+        Some(d)
+    }
+
+    // ------------------------------------------------------------------------------ value-block parser contract
+    /// `B\t<meta>\tQBlk [items]\t<Value j | Null | ParseError>\t<text>`: item lists of a value block rendered to
+    /// text inside `let r = if true { ... } else { 0 }`, parsed by the real parser; the observation is read off
+    /// the AST (which item's text the then-branch expression starts at; Null = the block yielded null).
+    pub fn mode_blk(r: &mut Rng, n: usize) {
+        use aelys_syntax::{ExprKind, StmtKind};
+        const EXPRS: [(&str, &str); 15] = [("Int", "7"), ("Float", "7.5"), ("String", "\"s\""), ("FmtString", "\"f{1}\""), ("True", "true"),
+            ("False", "false"), ("Null", "null"), ("Identifier", "qq"), ("LBracket", "[1, 2]"), ("LParen", "(1 + 2)"),
+            ("If", "if true { 1 } else { 2 }"), ("Fn", "fn(q) q"), ("Minus", "-qq"), ("Not", "not true"), ("Tilde", "~5")];
+        const TERMS: [&str; 4] = ["let d = 1", "return 3", "break", "continue"];
+        const BLOCKS: [&str; 2] = ["while false { }", "for z in 0..1 { }"];   // an `if` inside a value block is always an if-EXPRESSION
+        for case in 0..n {
+            let len = if case < 40 { case % 4 } else { r.range_i64(0, 6) as usize };
+            let mut items: Vec<String> = Vec::new();      // Coq items
+            let mut text = String::from("let r = if true {");
+            let mut starts: Vec<usize> = Vec::new();      // char offset of each expression item
+            let mut prev = 0u8;                           // 0 nothing/semi, 1 expr or terminated statement, 2 block statement
+            if r.chance(1, 6) { text.push_str(" ;"); items.push("BSemi".into()); }
+            let kinds: Vec<u64> = (0..len).map(|j| if j + 1 == len && r.chance(2, 3) { 0 } else { r.below(5) }).collect();
+            for j in 0..len {
+                text.push(' ');
+                let kind = kinds[j];
+                match kind {
+                    0 | 1 | 2 => { let (k, t) = *r.pick(&EXPRS); starts.push(text.chars().count()); text.push_str(t); items.push(format!("BExpr T{}", k)); prev = 1; }
+                    3 => { text.push_str(*r.pick(&TERMS[..])); items.push("BTerm".into()); prev = 1; }
+                    _ => { text.push_str(*r.pick(&BLOCKS[..])); items.push("BBlock".into()); prev = 2; }
+                }
+                // separator after the item; a missing separator is only written before a keyword-led item or `}`
+                let last = j + 1 == len;
+                // no separator at all: before `}`, or (1 in 6) before an item that starts with a keyword -- a missing
+                // separator the parser must reject after an expression / let / return, and accept after a `}`-ended statement
+                let sep = if last { r.below(6) } else if kinds[j + 1] >= 3 && r.chance(1, 6) { 5 } else { r.below(5) };
+                match sep {
+                    0 => { text.push(';'); items.push("BSemi".into()); prev = 0; }
+                    1 => { text.push_str(";\n  "); items.push("BSemi".into()); prev = 0; }
+                    2 => { text.push_str("\n  "); items.push("BSemi".into()); prev = 0; let _ = prev; }   // inserted by the lexer (every item ends in a statement-ending token)
+                    3 => { text.push_str(" ;; "); items.push("BSemi".into()); items.push("BSemi".into()); prev = 0; }
+                    4 => { text.push_str("\n\n // c\n  ;"); items.push("BSemi".into()); items.push("BSemi".into()); prev = 0; }
+                    _ => {}
+                }
+            }
+            let _ = prev;
+            text.push_str(" } else { 0 }\n");
+            // items written next to each other without separator: only let the case through when the next item starts with a keyword
+            let obs = {
+                let t = text.clone();
+                let st = starts.clone();
+                guarded(std::panic::AssertUnwindSafe(move || {
+                    let source = aelys_syntax::Source::new("<verif>", &t);
+                    let tokens = match Lexer::with_source(source.clone()).scan() { Ok(t) => t, Err(_) => return "ParseError".to_string() };
+                    let stmts = match aelys_frontend::parser::Parser::new(tokens, source).parse() { Ok(s) => s, Err(_) => return "ParseError".to_string() };
+                    let Some(first) = stmts.first() else { return "ParseError".to_string() };
+                    let StmtKind::Let { initializer, .. } = &first.kind else { return "Shape".to_string() };
+                    let ExprKind::If { then_branch, .. } = &initializer.kind else { return "Shape".to_string() };
+                    match st.iter().position(|&o| o == then_branch.span.start) {
+                        Some(j) => format!("Value {}", j),
+                        None => if matches!(then_branch.kind, ExprKind::Null) { "Null".to_string() } else { "Shape".to_string() },
+                    }
+                })).unwrap_or("Panic".to_string())
+            };
+            println!("B\t{}\tQBlk [{}]\t{}\t{}", case, items.join("; "), obs, esc(&text));
+        }
+    }
+
     fn same(a: &Outcome, b: &Outcome) -> bool {
         if a.class != b.class { return false; }
         if a.class == "compile-error" { return true; }
@@ -647,6 +784,7 @@ mod imp {
             let base_tilde = bp.tilde_tail;
             let base = bp.o;
             let base_out: Vec<Outcome> = opts.iter().map(|&o| run_program(&base, o, (0, 0), budget, None)).collect();
+            let base_ast = ast_norm(&base);
             for fam in FAMS {
                 for rep in 0..2 {
                     let mut vr = Rng::new(r.next_u64());
@@ -656,11 +794,13 @@ mod imp {
                     let flags = format!("applied={},comment_before_else={},sep_inside_parens={}/{},tilde_tail={}", vp.applied, vp.comment_before_else as u8, base_sep_in_parens, vp.sep_inside_parens, base_tilde);
                     for (k, v) in &vp.pos { *dist.entry(k.clone()).or_insert(0) += v; }
                     let var = vp.o;
+                    // parser-level oracle: same AST modulo spans and Grouping ("-" when one of the texts is rejected)
+                    let ast = match (&base_ast, ast_norm(&var)) { (Some(a), Some(b)) => if *a == b { "1" } else { "0" }, _ => "-" };
                     for (k, &o) in opts.iter().enumerate() {
                         let vo = run_program(&var, o, (0, 0), budget, None);
                         let s = same(&base_out[k], &vo);
-                        let show = !s || dump || (id < 2 && rep == 0 && k == 0);
-                        println!("V\t{}\t{:?}\t{}\t{}\t{}\t{}\t{}\t{}\t{}\t{}\t{}", id, fam, flags, o, base_out[k].class, vo.class, s as u8,
+                        let show = !s || ast == "0" || dump || (id < 2 && rep == 0 && k == 0);
+                        println!("V\t{}\t{:?}\t{},ast={}\t{}\t{}\t{}\t{}\t{}\t{}\t{}\t{}", id, fam, flags, ast, o, base_out[k].class, vo.class, s as u8,
                                  if show { esc(&base) } else { String::new() }, if show { esc(&var) } else { String::new() },
                                  if show { esc(&base_out[k].output) } else { String::new() }, if show { esc(&vo.output) } else { String::new() });
                     }
@@ -692,12 +832,17 @@ mod imp {
         let n = arg_u64("--n", 300) as usize;
         let budget = arg_u64("--budget", 300_000);
         let opts: Vec<u32> = arg("--opts").unwrap_or("0,2".into()).split(',').filter_map(|s| s.parse().ok()).collect();
-        let mut rng = Rng::new(seed ^ match mode.as_str() { "lex" => 0x11, "lit" => 0x22, _ => 0x33 });
+        let mut rng = Rng::new(seed ^ match mode.as_str() { "lex" => 0x11, "lit" => 0x22, "blk" => 0x44, _ => 0x33 });
         match mode.as_str() {
             "lex" => mode_lex(&mut rng, n, flag("--all-pairs")),
             "lit" => mode_lit(&mut rng, n),
             "var" => mode_var(&mut rng, n, &opts, budget, flag("--dump")),
+            "blk" => mode_blk(&mut rng, n),
             "pairs" => mode_pairs(&arg("--file").expect("--file"), &opts, budget),
+            "astfile" => {
+                let text = std::fs::read_to_string(arg("--file").expect("--file")).expect("read");
+                println!("{}", ast_norm(&text).unwrap_or("REJECTED".into()));
+            }
             "lexfile" => {
                 let text = std::fs::read_to_string(arg("--file").expect("--file")).expect("read");
                 println!("{}", match lex_names(&text) { Some(v) => v.join(" "), None => "ERR".into() });
